@@ -7,13 +7,14 @@ VERIF = os.path.dirname(os.path.dirname(os.path.abspath(__file__)))
 SEEDED = os.path.join(VERIF, 'seeded')
 os.makedirs(SEEDED, exist_ok=True)
 # import new ones
-for d in sorted(glob.glob('/tmp/seed_C*')):
-    pid = os.path.basename(d)[5:]
-    for v in 'ab':
+for d in sorted(glob.glob('/tmp/seed_C*') + glob.glob('/tmp/seed2_C*')):
+    rnd = '2' if os.path.basename(d).startswith('seed2_') else ''
+    pid = os.path.basename(d).split('_')[1]
+    for v in 'abc':
         pf = os.path.join(d, 'patch_%s.diff' % v)
         df = os.path.join(d, 'demo_%s.py' % v)
         if os.path.exists(pf) and os.path.exists(df):
-            tgt = os.path.join(SEEDED, '%s_%s' % (pid, v))
+            tgt = os.path.join(SEEDED, '%s_%s%s' % (pid, rnd, v))
             if not os.path.exists(tgt):
                 os.makedirs(tgt)
                 shutil.copy(pf, os.path.join(tgt, 'patch.diff'))
